@@ -653,6 +653,16 @@ class IndividualParameters:
         df = self.to_dataframe()
         df.to_csv(path, **kwargs)
 
+    @staticmethod
+    def _numpy_scalar_to_python(obj):
+        """
+        Fallback serializer for :func:`json.dump`: numpy scalars (accepted by
+        :meth:`.add_individual_parameters`) are written as the corresponding Python scalars.
+        """
+        if isinstance(obj, np.generic):
+            return obj.item()
+        raise TypeError(f"Object of type {type(obj).__name__} is not JSON serializable")
+
     def _save_json(self, path: str, **kwargs):
         """
         Save individual parameters and related metadata to a JSON file.
@@ -671,7 +681,7 @@ class IndividualParameters:
         }
 
         # Default json.dump kwargs:
-        kwargs = {"indent": 2, **kwargs}
+        kwargs = {"indent": 2, "default": self._numpy_scalar_to_python, **kwargs}
 
         with open(path, "w") as f:
             json.dump(json_data, f, **kwargs)
